@@ -20,8 +20,12 @@ class Message:
     def _check_args(self):
         if any(type(arg)(' ') in arg in arg for arg in self.args[:-1] if isinstance(arg, str)):
             raise Error('Space can only appear in the very last arg')
-        if any(type(arg)('\n') in arg for arg in self.args if isinstance(arg, str)):
+        if any(nl in arg for arg in self.args if isinstance(arg, str) for nl in ('\r', '\n')):
             raise Error('No newline allowed')
+        # neither may the command or the prefix start a new line or a new parameter
+        for value in (self.command, self.prefix):
+            if value is not None and any(c in str(value) for c in ('\r', '\n', ' ')):
+                raise Error('No newline or space allowed in command and prefix')
 
     @staticmethod
     def from_string(s):
